@@ -74,7 +74,7 @@ def gen_coef(rng, style):
 
 class Table:
     def __init__(self, orders, knots, coefs, pad):
-        self.orders, self.knots, self.coefs, self.pad = orders, knots, coefs, pad
+        self.orders, self.knots, self.coefs, self.pad = orders, knots, [to_f32(c) for c in coefs], pad
         self.ndim = len(orders)
         self.nknots = [len(k) for k in knots]
         self.naxes = [len(k) - o - 1 for k, o in zip(knots, orders)]
@@ -346,18 +346,34 @@ def parse_q(s):
     n = int(num.lstrip("-"), 16)
     return fractions.Fraction(-n if neg else n, int(den, 16))
 
-def tolerance_ok(impl_val, exact, absum, orders, precision):
-    """|impl - exact| <= K*u*sum|terms| + tiny  (DESIGN §1.1), all in exact rationals"""
+def tolerance_ok(impl_val, exact, absum, orders, precision, underflow_scale=0):
+    """|impl - exact| <= K*u*sum|terms| + underflow term  (DESIGN §1.1), all in exact rationals.
+    The underflow term is the absolute error floor of the working precision (2^-149 resp. 2^-1074 per operation)
+    times [underflow_scale] = (number of terms) * max|coefficient| * prod_d max(1, sum_i |basis_i|): an intermediate
+    product that underflows loses at most that much after being multiplied by the remaining factors."""
     if impl_val != impl_val or impl_val in (math.inf, -math.inf):
         return False, None
     u = fractions.Fraction(1, 2 ** 24) if precision == "f" else fractions.Fraction(1, 2 ** 53)
+    eta = fractions.Fraction(1, 2 ** 149) if precision == "f" else fractions.Fraction(1, 2 ** 1074)
     K = 16 * sum(o + 2 for o in orders)
-    tiny = fractions.Fraction(1, 2 ** 120) if precision == "f" else fractions.Fraction(1, 2 ** 1000)
     err = abs(fractions.Fraction(impl_val) - exact)
-    bound = K * u * absum + tiny
+    bound = K * u * absum + eta * (1 + 64 * fractions.Fraction(underflow_scale))
     return err <= bound, (float(err), float(bound))
 
 # ================================================================================================
+_ORACLE_OWNER = [None]
+def _oracle_job(job):
+    qid, t, q, iout, mout = job
+    return qid, _ORACLE_OWNER[0].oracle(t, q, iout, mout)
+def parallel_oracle(owner, jobs):
+    """evaluates the property oracle over many queries on all cores (fork: the owner object is inherited)"""
+    if len(jobs) < 64:
+        return [(j[0], owner.oracle(j[1], j[2], j[3], j[4])) for j in jobs]
+    import multiprocessing as mp
+    _ORACLE_OWNER[0] = owner
+    with mp.get_context("fork").Pool(NCPU) as pool:
+        return pool.map(_oracle_job, jobs, chunksize=max(1, len(jobs) // (NCPU * 8)))
+
 class EvalCheck:
     """Shared driver: generate -> run model and implementation(s) -> exact comparison -> property oracle.
     Subclasses define: PROP, gen(rng, n) -> list of (Table, [ (xs, masks, ks, flags, classes) ]), keyfilter(key),
@@ -461,12 +477,13 @@ class EvalCheck:
                     byq.setdefault(qid, []).append((k, a, b))
                 ndiff += len(byq)
                 stats.setdefault("diff_queries", {}).update({q: v[:4] for q, v in list(byq.items())[:50]})
-            for qid, iout in impl.items():
+            jobs = [(qid, meta[qid][0], meta[qid][1], iout, res["model"].get(qid, {})) for qid, iout in impl.items()]
+            for qid, fl in parallel_oracle(self, jobs):
                 t, q = meta[qid]
-                for sig, msg in self.oracle(t, q, iout, res["model"].get(qid, {})):
+                for sig, msg in fl:
                     nor += 1
                     p = self.case_payload(t, q, qid)
-                    p.update({"impl_output": iout, "model_output": res["model"].get(qid), "oracle_verdict": msg, "flavour": ftag})
+                    p.update({"impl_output": impl[qid], "model_output": res["model"].get(qid), "oracle_verdict": msg, "flavour": ftag})
                     out.violation(sig, msg, p)
         for ftag, qid, detail in res["crashes"]:
             t, q = meta.get(qid, (None, None))
